@@ -26,6 +26,8 @@ def classify_exception(ex):
         return "value"
     if type(ex) is ValueError and "exceeded the allowed tolerance" in str(ex):
         return "tol"
+    if str(ex) == "injected failure":
+        return "other:injected failure propagated as " + type(ex).__name__      # a tolerated failure must never leave step()
     if isinstance(ex, (RuntimeError, AssertionError, ValueError, IndexError)) and not isinstance(ex, faults.InjectedFailure):
         return "len"   # a crash inside step(): the spec's only non-documented exception class is the list-length mismatch
     return "other:" + type(ex).__name__
@@ -185,9 +187,10 @@ class Runner:
         return mism
 
     def params_overflowed(self):
-        """A PARAMETER overflowed in a 16-bit dtype (a finite root times a finite gradient can exceed 65504): from then on gradients
+        """A PARAMETER overflowed in a 16-bit dtype, or in a dtype narrower than the preconditioner's (a finite root times a finite
+        gradient can exceed the largest representable value): from then on gradients
         (coupled weight decay) and factors are non-finite for a reason no property speaks about - drivers end the run there."""
-        return self.draw["dtype"] in ("float16", "bfloat16") and any(
+        return (self.draw["dtype"] in ("float16", "bfloat16") or self.draw["dtype"] != self.draw.get("pdtype", self.draw["dtype"])) and any(
             not bool(torch.isfinite(p.detach().float()).all()) for ps in self.params for p in ps)
 
     def do_event(self, ev):
@@ -249,6 +252,9 @@ class Runner:
             gi, b, k = who
             out = outc[gi][b - 1]["f"][k - 1] if k - 1 < len(outc[gi][b - 1]["f"]) else "ok"
             calls.append([gi, b, k, out])
+            if out == "fail":          # the exception class rotates from failure to failure (deterministic per run)
+                self._nfail = getattr(self, "_nfail", -1) + 1
+                return f"fail:{self._nfail}"
             return out
 
         def natural(result):
